@@ -407,13 +407,52 @@ func trunc(s string) string {
 	return s
 }
 
+// c13Prefix: a prefix handed out by PushDataPrefix is used the way its documentation shows - the
+// data is appended to it - and afterwards every prefix (all lengths around the class boundaries) and
+// every encoding is still what the reference says.
+type c13Prefix struct {
+	Len int `json:"len"`
+}
+
+var c13PrefixLens = func() (ls []int) {
+	for l := 1; l <= 80; l++ {
+		ls = append(ls, l)
+	}
+	return append(ls, 254, 255, 256, 257, 65535, 65536)
+}()
+
+func c13PrefixCheck(c c13Prefix) (fs []rep.Finding) {
+	d := fill(c.Len, 0xc3)
+	pf, err := bscript.PushDataPrefix(d)
+	if err != nil || !bytes.Equal(pf, refPrefix(c.Len)) {
+		return append(fs, rep.F("PushDataPrefix|class", fmt.Sprintf("len %d prefix %x", c.Len, pf)))
+	}
+	script := append(pf, d...) // the documented use
+	if !bytes.Equal(script, append(refPrefix(c.Len), d...)) {
+		fs = append(fs, rep.F("PushDataPrefix|prefix-plus-data", "prefix followed by the data is not the push"))
+	}
+	for _, l := range c13PrefixLens {
+		e := fill(l, 0x3c)
+		if pf2, err := bscript.PushDataPrefix(e); err != nil || !bytes.Equal(pf2, refPrefix(l)) {
+			fs = append(fs, rep.F("PushDataPrefix|changes-after-a-returned-prefix-was-appended-to", fmt.Sprintf("after appending %d bytes to the prefix returned for them, the prefix for %d bytes is %x", c.Len, l, pf2)))
+			break
+		}
+		if enc, err := bscript.EncodeParts([][]byte{e}); err != nil || !bytes.Equal(enc, append(refPrefix(l), e...)) {
+			fs = append(fs, rep.F("EncodeParts|changes-after-a-returned-prefix-was-appended-to", fmt.Sprintf("after appending %d bytes to the prefix returned for them, a %d-byte item is encoded wrongly", c.Len, l)))
+			break
+		}
+	}
+	return
+}
+
 func init() {
 	p := register(&Prop{ID: "C13", Level: "exploration",
-		Rule: "exhaustive: (scripts) every byte string of length<=2 plus length 3 over a 68-symbol alphabet (quick) / every byte string of length<=3 (thorough), every string of length 4 (thorough: 5) over a 14-symbol control-flow / OP_RETURN / push-header alphabet, and every truncation at every position of 40 longer well-formed scripts, through DecodeParts, Parse/Unparse, hex and JSON against the reference tokenizer; (parts) every list of <=3 items with lengths in {1,2,75,76,255,256,65535,65536} x 3 fill patterns through EncodeParts/PushDataPrefix/DecodeParts/AppendPushDataArray/Parse; (asm) every sequence (the empty one included) of length<=2 (quick) / <=3 (thorough) over {all 178 non-push opcode bytes, minimal pushes of 2,3,75,76,255,256 bytes, 8 pushes whose hex reads as a decimal number} that is not a data script through ToASM/NewFromASM. distinct_nontrivial = distinct (token count, well-formedness, has-return) classes x length for scripts + distinct part-length vectors + distinct asm strings",
+		Rule: "exhaustive: (scripts) every byte string of length<=2 plus length 3 over a 68-symbol alphabet (quick) / every byte string of length<=3 (thorough), every string of length 4 (thorough: 5) over a 14-symbol control-flow / OP_RETURN / push-header alphabet, and every truncation at every position of 40 longer well-formed scripts, through DecodeParts, Parse/Unparse, hex and JSON against the reference tokenizer; (parts) every list of <=3 items with lengths in {1,2,75,76,255,256,65535,65536} x 3 fill patterns through EncodeParts/PushDataPrefix/DecodeParts/AppendPushDataArray/Parse; (prefix) for every length 1..80, 254..257, 65535, 65536: the data appended to the prefix PushDataPrefix returned, then every prefix and encoding of those lengths checked again; (asm) every sequence (the empty one included) of length<=2 (quick) / <=3 (thorough) over {all 178 non-push opcode bytes, minimal pushes of 2,3,75,76,255,256 bytes, 8 pushes whose hex reads as a decimal number} that is not a data script through ToASM/NewFromASM. distinct_nontrivial = distinct (token count, well-formedness, has-return) classes x length for scripts + distinct part-length vectors + distinct asm strings",
 	})
 	sS := NewSpace(p, "scripts", c13ScriptCheck)
 	sP := NewSpace(p, "parts", c13PartsCheck)
 	sA := NewSpace(p, "asm", c13ASMCheck)
+	sX := NewSpace(p, "prefix", c13PrefixCheck)
 	p.Run = func(r *rep.Run, thorough bool) {
 		chk := func(c c13Script) []rep.Finding {
 			fs := c13ScriptCheck(c)
@@ -519,6 +558,13 @@ func init() {
 			return fs
 		}}).Slice(r, pcs)
 		r.Sample("parts", pcs[100])
+
+		// prefixes used as documented
+		var xcs []c13Prefix
+		for _, l := range c13PrefixLens {
+			xcs = append(xcs, c13Prefix{l})
+		}
+		sX.Slice(r, xcs)
 
 		// asm
 		syms := asmSymbols()
